@@ -31,7 +31,7 @@ inductive RItem where
   | res (reserve : Nat)                  -- `#res`, already multiplied by the address unit
   | align (n : Nat)
   | addr (a : Int)
-  | const (depth : Nat)                  -- a constant: a symbol too, so `labelalign` applies to it
+  | const (depth : Nat)                  -- a constant: a symbol, but no label - `labelalign` does not apply (F57)
   | other                                -- #assert, #fn, #ruledef, ...
 deriving Repr, Inhabited
 
